@@ -79,7 +79,10 @@ def corruptions(entry, name, order, marker):
             out.append(("reserved-name-" + r, ee, "any-error"))
     mk = name + marker
     ee = json.loads(json.dumps(entry).replace(name, mk))
-    out.append(("marker-in-name", ee, "any-error" if order == 0 else "malformed"))
+    out.append(("marker-in-name", ee, "any-error"))
+    # the ambiguity the check exists to prevent: the name is ANOTHER variable's name plus the marker
+    ee = json.loads(json.dumps(entry).replace(name, "w_other" + marker))
+    out.append(("marker-in-name-colliding", ee, "any-error"))
     return out
 
 
